@@ -16,7 +16,10 @@ EXTENDS Integers, Sequences, FiniteSets, TLC, SequencesExt, FiniteSetsExt, Json,
 
 CONSTANTS MaxRanges,   \* listings of 1..MaxRanges ranges
           Starts,      \* set of range starts (naturals; the query lattice is finer, see Rs)
-          MaxQueries   \* number of successive queries on one object
+          MaxQueries,  \* number of successive queries on one object
+          NumericAcross \* a composite none of whose ranges offers a derivative is differentiated numerically as a whole
+                        \* (central difference of the composite): the tree as it is - known finding F30; FALSE = the design
+                        \* in which every consumer asks the selected range
 
 \* query points: below, at, between and above the starts.  Starts are even numbers; an odd number stands for EVERY
 \* separation strictly between two neighbouring lattice starts (the replay takes the midpoint, the floating point
@@ -132,6 +135,20 @@ DefaultOnlyBelow == (pc = "done") => ((ret = 0) <=> (Cands(listing, r) = {}))
 SortedOK == (pc # "set") => \A a, b \in 1..Len(sorted) : a < b => ~Before(sorted[b], sorted[a])
 \* not an invariant of the implementation (TLC exhibits << >1, >=1 >>, r above 1): documents the tie decision
 StrictTie == (pc = "done") => ret \in AllowedStrict(listing, r)
+
+\* C08 "derivatives are taken from the same selected range".  The ranges that contribute to the derivative at x:
+\* a composite that offers .deriv (some range has an analytic derivative) asks the selected range; one that offers none
+\* is differentiated by its consumer (Potential.force, the spline modifiers): a central difference of the COMPOSITE
+\* evaluates it just below and just above x, which on a range start are the separations of the neighbouring intervals.
+OnStart(x) == x \in Starts
+DerivSources(l, x, offersDeriv) ==
+  IF offersDeriv \/ ~NumericAcross THEN CodeKeys(l, x)
+  ELSE IF OnStart(x) THEN CodeKeys(l, x - 1) \cup CodeKeys(l, x + 1) ELSE CodeKeys(l, x)
+DerivFromSelected == (pc = "done" /\ NoExactDuplicates(listing)) =>
+                       \A od \in BOOLEAN : DerivSources(listing, r, od) = {KeyOf(listing, ret)}
+\* what the tree as it is (NumericAcross) satisfies: everything but a derivative-less composite queried on a lattice start
+DerivFromSelectedButF30 == (pc = "done" /\ NoExactDuplicates(listing)) =>
+                             \A od \in BOOLEAN : (od \/ ~OnStart(r)) => DerivSources(listing, r, od) = {KeyOf(listing, ret)}
 
 NoStuck == (~ENABLED Next) => (pc = "idle" /\ nq = MaxQueries)
 
